@@ -163,12 +163,18 @@ func c07main(c *Ctx) {
 		lg := chain[depth-1]
 		// context keys
 		var ctxList []srcKV
+		var keyDesc []string
 		var ctx context.Context = context.Background()
 		nkeys := 0
 		if r.P(50) {
 			nkeys = r.Range(1, 5)
 		}
 		nilCtx := nkeys > 0 && r.P(10)
+		type regKey struct {
+			key  any
+			name string
+		}
+		var regs []regKey
 		for i := 0; i < nkeys; i++ {
 			name := fmt.Sprintf("k%02d", r.Intn(keyspace))
 			if r.P(30) {
@@ -179,11 +185,18 @@ func c07main(c *Ctx) {
 				key = ctxKeyT{name}
 			}
 			lg.SetContextKeys(key)
+			regs = append(regs, regKey{key, name})
+			keyDesc = append(keyDesc, fmt.Sprintf("%T(%v)", key, key))
 			if r.P(75) { // present in the context
-				tag := fmt.Sprintf("ctx#%d", i)
-				ctx = context.WithValue(ctx, key, tag)
-				if !nilCtx {
-					ctxList = append(ctxList, srcKV{key: name, src: tag})
+				ctx = context.WithValue(ctx, key, fmt.Sprintf("ctx#%d", i))
+			}
+		}
+		// the reference looks every registered key up the way a context does: the same key registered
+		// twice finds the same (innermost) value twice
+		if !nilCtx {
+			for _, rk := range regs {
+				if v := ctx.Value(rk.key); v != nil {
+					ctxList = append(ctxList, srcKV{key: rk.name, src: v.(string)})
 				}
 			}
 		}
@@ -222,7 +235,7 @@ func c07main(c *Ctx) {
 				lg.InfoContext(ctx, "probe", args...)
 			}
 		})
-		desc := map[string]any{"format": f.String(), "inherit_flag": inherit, "depth": depth, "ctx": descList(ctxList), "nil_ctx": nilCtx, "call": descList(call)}
+		desc := map[string]any{"format": f.String(), "inherit_flag": inherit, "depth": depth, "ctx": descList(ctxList), "registered_ctx_keys": keyDesc, "nil_ctx": nilCtx, "call": descList(call)}
 		for d := 0; d < depth; d++ {
 			desc[fmt.Sprintf("logger%d_attrs", d)] = descList(own[d])
 		}
